@@ -184,7 +184,12 @@ func buildMsg(c rtCase) []byte {
 	return m
 }
 
-func checkRoundTrip(c rtCase, r *h.Rec) error {
+func checkRoundTrip(c rtCase, r *h.Rec) error { return checkRoundTripMsg(c, buildMsg(c), r) }
+
+// checkRoundTripMsg is the round-trip check for an explicit message of c.Len
+// bytes (the sweeps derive it from the case with buildMsg; the native fuzz
+// target supplies its own bytes).
+func checkRoundTripMsg(c rtCase, orig []byte, r *h.Rec) error {
 	r.Label(schemeNames[c.Scheme])
 	r.NTIf(c.BS != 16 || c.Spare > 0)
 	if c.BS != 16 {
@@ -200,7 +205,6 @@ func checkRoundTrip(c rtCase, r *h.Rec) error {
 	if p.BlockSize() != c.BS {
 		return fmt.Errorf("BlockSize()=%d want %d", p.BlockSize(), c.BS)
 	}
-	orig := buildMsg(c)
 	const sentinel = 0xA5
 	backing := make([]byte, c.Len+c.Spare)
 	for i := range backing {
@@ -491,20 +495,22 @@ func TestC18_NoPanic(t *testing.T) {
 		n := rapid.OneOf(rapid.IntRange(0, 3*bs+2), rapid.IntRange(0, 20)).Draw(t, "n")
 		s := rapid.SliceOfN(rapid.SampledFrom([]byte{0, 1, 0x80, byte(bs), 0xff, byte(n)}), n, n).Draw(t, "s")
 		return anyCase{sch, bs, s}
-	}, func(c anyCase, r *h.Rec) error {
-		r.Label("nopanic-" + schemeNames[c.Scheme])
-		aligned := len(c.S) > 0 && len(c.S)%c.BS == 0
-		r.NTIf(!aligned)
-		p := newScheme(c.Scheme, c.BS)
-		out, err := p.Unpad(append([]byte{}, c.S...)) // a panic is caught by the harness and reported
-		if !aligned && err == nil {
-			return fmt.Errorf("Unpad accepted a string of length %d that is not a positive multiple of %d (-> %x)", len(c.S), c.BS, out)
-		}
-		if aligned {
-			return checkAccept(accCase(c), &h.Rec{})
-		}
-		return nil
-	})
+	}, checkNoPanic)
+}
+
+func checkNoPanic(c anyCase, r *h.Rec) error {
+	r.Label("nopanic-" + schemeNames[c.Scheme])
+	aligned := len(c.S) > 0 && len(c.S)%c.BS == 0
+	r.NTIf(!aligned)
+	p := newScheme(c.Scheme, c.BS)
+	out, err := p.Unpad(append([]byte{}, c.S...)) // a panic is caught by the harness and reported
+	if !aligned && err == nil {
+		return fmt.Errorf("Unpad accepted a string of length %d that is not a positive multiple of %d (-> %x)", len(c.S), c.BS, out)
+	}
+	if aligned {
+		return checkAccept(accCase(c), &h.Rec{})
+	}
+	return nil
 }
 
 type ctorCase struct {
